@@ -9,7 +9,7 @@ usage: thorough_extra.py <ID> <verif dir> <out dir> <repo dir> <seed>"""
 import glob, json, os, random, re, shutil, subprocess, sys, time
 
 ID, V, OUT, REPO, SEED = sys.argv[1], sys.argv[2], sys.argv[3], sys.argv[4], int(sys.argv[5])
-FUZZ_PROPS = {"C01", "C02", "C03", "C04", "C06", "C07", "C08", "C09", "C10", "C12", "C14", "C15"}
+FUZZ_PROPS = {"C01", "C02", "C03", "C04", "C06", "C07", "C08", "C09", "C10", "C12", "C13", "C14", "C15", "C16", "C17", "C18"}
 ASAN_PROPS = {"C03", "C04", "C16", "C18"}
 MIRI_PROPS = {"C03"}
 env = dict(os.environ, CARGO_NET_OFFLINE="true", VERIF_REPO=REPO, VERIF_DIR=OUT)
@@ -50,7 +50,7 @@ def fuzz_stage():
         open(os.path.join(corpus, "seed%02d" % i), "wb").write(bytes(rnd.randrange(256) for _ in range(rnd.randrange(24, 256))))
     runs = 400000
     t0 = time.time()
-    rc, out = sh([binp, corpus, "-runs=%d" % runs, "-seed=%d" % (SEED % 2**31 or 1), "-len_control=0", "-max_len=256", "-jobs=8", "-workers=8", "-max_total_time=150", "-artifact_prefix=" + arts, "-print_final_stats=1"], cwd=work, timeout=400, env_=dict(env, VERIF_PROP=ID, VH_NO_JOURNAL="1"))
+    rc, out = sh([binp, corpus, "-runs=%d" % runs, "-seed=%d" % (SEED % 2**31 or 1), "-len_control=0", "-max_len=256", "-jobs=8", "-workers=8", "-max_total_time=150", "-artifact_prefix=" + arts, "-print_final_stats=1", "-detect_leaks=0"], cwd=work, timeout=400, env_=dict(env, VERIF_PROP=ID, VH_NO_JOURNAL="1", ASAN_OPTIONS="detect_leaks=0"))
     st["wall_s"] = round(time.time() - t0, 1)
     execs, cov = 0, 0
     for lf in glob.glob(os.path.join(work, "fuzz-*.log")):
@@ -71,7 +71,8 @@ def fuzz_stage():
         os.makedirs(rp_dir, exist_ok=True)
         if m:
             rp = os.path.join(rp_dir, "fuzz-%s.json" % os.path.basename(a)[-16:])
-            json.dump({"property": ID, "engine": "e3", "case": json.loads(m.group(1)), "observed": "found by libFuzzer"}, open(rp, "w"), indent=1)
+            engine = {"C13": "c13", "C16": "c16", "C17": "c17", "C18": "e4"}.get(ID, "e3")
+            json.dump({"property": ID, "engine": engine, "case": json.loads(m.group(1)), "observed": "found by libFuzzer"}, open(rp, "w"), indent=1)
             sh([os.path.join(OUT, "target", "std", "release", "vh"), "minimize", rp, "--verif-dir", OUT], env_=dict(env, VH_CHILD="1"))
             violations.append((rp, "libFuzzer found an input whose decoded case violates the property (minimised case in the replay file)"))
         else:
